@@ -13,7 +13,7 @@ TECHNIQUE = ("bounded-exhaustive enumeration of operator-instance sequences buil
              "x min_pattern_len x top_k, real get_frequent_cuda_kernel_sequences vs recount from the reference tree")
 RULE = ("every sequence of <=L top-level instances drawn (with repetition) from 11 templates over operator names "
         "{aten::A, aten::B} and activities {kern_x, kern_y, memcpy}; evaluated for operator in {aten::A, aten::B, "
-        "absent name} x min_pattern_len in {1,2,3} x top_k in {1,5}; a variant wraps everything in profiler-step "
+        "absent name} x min_pattern_len in {0,1,2,3} x top_k in {1,5}; length-2 sequences also with the file order reversed; a variant wraps everything in profiler-step "
         "annotations. non-trivial = at least two patterns, or an instance excluded by depth or by min_pattern_len")
 ASSUMPTIONS = [
     "operator names of the alphabet are not substrings of one another or of activity names, so 'matching' is exact",
@@ -56,6 +56,9 @@ def worlds(tier: str, stats: Dict[str, Any]) -> Iterator[Any]:
             yield dict(seq=list(seq), steps=False)
             if L == 1:
                 yield dict(seq=list(seq), steps=True)
+            if L == 2:
+                stats["transitions"] += 1
+                yield dict(seq=list(seq), steps=False, file_order="reversed")
     if b["L"] < 3:
         for seq in itertools.product(b["L3_subset"], repeat=3):
             stats["transitions"] += 1
@@ -92,6 +95,8 @@ def build(world) -> List[Dict[str, Any]]:
         emit(TEMPLATES[k])
     if world["steps"]:
         evs.insert(1, kineto.step(5, E0, state["t"] - E0 + 5))
+    if world.get("file_order") == "reversed":
+        evs = evs[:1] + evs[1:][::-1]
     return evs
 
 
@@ -134,12 +139,12 @@ def check(world) -> Dict[str, Any]:
     excluded = False
     try:
         for op in (A, B, "aten::absent"):
-            for m in (1, 2, 3):
+            for m in (0, 1, 2, 3):
                 exp = expected(rows, op, m, tie)
                 exp_all = expected(rows, op, 0, tie)
                 npat = max(npat, len(exp))
                 excluded |= sum(v[0] for v in exp.values()) < sum(1 for r in rows if r["name"] == op)
-                for k in (1, 5):
+                for k in (1, 5) if m else (5,):
                     execs += 1
                     df = ta.get_frequent_cuda_kernel_sequences(op, out_dir, min_pattern_len=m, rank=0, top_k=k, visualize=False)
                     got: Dict[str, List[int]] = {}
